@@ -16,7 +16,6 @@ use bolero::generator::bolero_generator::any::scope;
 use bolero::generator::bolero_generator::driver::exhaustive;
 use bolero::generator::bolero_generator::driver::object::{Borrowed, Object};
 use hydro_lang::live_collections::stream::{NoOrder, TotalOrder};
-use hydro_lang::runtime_support::dfir_rs::rustc_hash::FxHashMap;
 use hydro_lang::runtime_support::dfir_rs::util::unsync::mpsc::{Receiver, unbounded};
 use hydro_lang::sim::compiled::{verif_hooks_can_run, verif_run_hooks};
 use hydro_lang::sim::runtime::*;
@@ -225,7 +224,7 @@ fn build_rig(kinds: &[Kind]) -> Rig {
                 }));
             }
             Kind::KeyedTotal | Kind::KeyedNo | Kind::TopKeyedOrder | Kind::TopPartial => {
-                let input = Rc::new(RefCell::new(FxHashMap::<u8, VecDeque<u8>>::default()));
+                let input: Rc<RefCell<_>> = Default::default();
                 let (tx, mut rx) = unbounded::<(u8, u8)>();
                 let hook: Box<dyn SimHook> = match k {
                     Kind::KeyedTotal => Box::new(KeyedStreamHook::<u8, u8, TotalOrder> {
@@ -293,7 +292,7 @@ fn build_rig(kinds: &[Kind]) -> Rig {
                 }));
             }
             Kind::KeyedSingleton => {
-                let input = Rc::new(RefCell::new(FxHashMap::<u8, VecDeque<u8>>::default()));
+                let input: Rc<RefCell<_>> = Default::default();
                 let (tx, mut rx) = unbounded::<(u8, u8)>();
                 rig.hooks.push(Box::new(KeyedSingletonHook::new(
                     input.clone(),
@@ -338,8 +337,8 @@ fn build_rig(kinds: &[Kind]) -> Rig {
                 }));
             }
             Kind::TopKeyedMerge => {
-                let first = Rc::new(RefCell::new(FxHashMap::<u8, VecDeque<u8>>::default()));
-                let second = Rc::new(RefCell::new(FxHashMap::<u8, VecDeque<u8>>::default()));
+                let first: Rc<RefCell<_>> = Default::default();
+                let second: Rc<RefCell<_>> = Default::default();
                 let (tx, mut rx) = unbounded::<(u8, u8)>();
                 rig.hooks.push(Box::new(TopLevelKeyedMergeOrderedHook::<u8, u8> {
                     first: first.clone(),
